@@ -266,6 +266,14 @@ def _mask_times(s: str) -> str:
     return s
 
 
+def _waiter_sans_time(w: Any) -> str:
+    """a waiter without the first_attempt_at / last_failed_at of the invocation suspended in it"""
+    return "W %s %s %d %s %d %s %d %s %s %s" % (
+        enc.waiter_id(w.waiter_id), enc.ev(w.event), ET.TY_ID[w.waiting_for_event], enc.req(w.requirements),
+        1 if w.has_requirements else 0, enc.opt_ev(w.resolved_event), 1 if w.timed_out else 0,
+        enc.num(getattr(w, "attempts", 0)), enc.exc(getattr(w, "last_exception", None)), enc.rc(getattr(w, "recovery_counts", {})))
+
+
 def state_sans_time(st: Any) -> str:
     """canonical state with first_attempt_at / last_failed_at erased"""
     import copy
@@ -279,10 +287,10 @@ def state_sans_time(st: Any) -> str:
         ip = []
         for i in ws.in_progress:
             ip.append("I %s %d %s %s %d %s %s" % (enc.ev(i.event), i.worker_id, enc.collected(i.shared_state.collected_events),
-                                                  enc.lst([enc.waiter(w) for w in i.shared_state.collected_waiters]), i.attempts,
+                                                  enc.lst([_waiter_sans_time(w) for w in i.shared_state.collected_waiters]), i.attempts,
                                                   enc.exc(i.last_exception), enc.rc(i.recovery_counts)))
         parts.append("S %s %s %s %s" % (enc.lst(q), enc.lst(ip), enc.collected(ws.collected_events),
-                                        enc.lst([enc.waiter(w) for w in ws.collected_waiters])))
+                                        enc.lst([_waiter_sans_time(w) for w in ws.collected_waiters])))
     return re.sub(r" F (\d+) (\d+) (\d+) (\d+) (-?\d+) (-?\d+)", r" F \1 \2 \3 \4 t t", " ".join(parts))
 
 
@@ -344,7 +352,8 @@ def mon_c11(tr: Trace, every: int = 1) -> list[Violation]:
         def strip(d: dict) -> dict:
             d = json.loads(json.dumps(d, default=str))
             for w in d.get("workers", {}).values():
-                for a in w.get("queue", []):
+                # timestamps aside: queued attempts and the attempt records kept in waiters
+                for a in list(w.get("queue", [])) + list(w.get("collected_waiters", [])):
                     a["first_attempt_at"] = None
                     a["last_failed_at"] = None
             d.pop("state", None)
@@ -547,6 +556,40 @@ def mon_c05(tr: Trace) -> list[Violation]:
             rns0 = [e[0] for e in execs]
             if any(b < a for a, b in zip(rns0, rns0[1:])):
                 out.append(Violation("C05/retry_number_went_back", f"{step} uid={uid}: retry_info().retry_number sequence {rns0} (a re-run lost the invocation's retry count)", _replay(tr)))
+                continue
+            # (a waiter id shared by several invocations of the step is ONE waiter entry — the later AddWaiter replaces the
+            # earlier one and a stale timeout of the earlier registration replays the later invocation a second time —
+            # outside "one invocation, its own wait": only steps whose waiter ids are unshared are accounted)
+            shared_wid = any(k[0] == step and len(v) > 1 for k, v in c10_waiter_users(tr).items())
+            if "collect" not in ops and not tr.spec.get("_resumed") and not tr.spec.get("eq_events") and not shared_wid:
+                # a waiting step: a suspension (WaitingForEvent) is not an attempt and its replay continues the invocation,
+                # so every execution runs with retry_number = failed executions of this invocation so far, and a retry
+                # (also one that follows a replay) sees the exception of the last failed execution
+                failures = 0
+                last_exc = None
+                ret_bad = any(a[0] == "ret" and a[1] == "bad" for a in sd["script"])  # a non-event return value fails the step
+                for e in execs:
+                    st = e[3] or ""
+                    if ret_bad and st == "ok":
+                        st = "raise:bad-return"
+                    ri = e[4] or {}
+                    if e[0] != failures:
+                        out.append(Violation("C05/retry_number_across_wait", f"{step} uid={uid}: an execution ran with retry_number {e[0]} after {failures} failed "
+                                             f"execution(s) of this invocation (statuses {[x[3] for x in execs]}, numbers {rns0})", _replay(tr)))
+                        break
+                    if failures and last_exc is not None and last_exc.startswith("raise:Boom") and ri.get("last_exc") is None:
+                        out.append(Violation("C05/retry_info_exception_across_wait", f"{step} uid={uid}: retry {e[0]} reports no last_exception after {last_exc}", _replay(tr)))
+                        break
+                    if st.startswith("raise:") and st != "raise:WaitingForEvent":
+                        failures += 1
+                        last_exc = st
+                # the WorkflowFailedEvent of this invocation reports every failed execution, those before the wait included
+                if failed_pubs and failed_pubs[0][0].step_name == step and all(x[2] is not None for x in execs):
+                    mine = [k for k, ex in lin.items() if k[0] == step and ex and ex[-1][3] != "raise:WaitingForEvent" and
+                            ((ex[-1][3] or "").startswith("raise:") or (ret_bad and ex[-1][3] == "ok"))]
+                    if mine == [(step, uid)] and failed_pubs[0][0].attempts != failures:
+                        out.append(Violation("C05/reported_attempts_across_wait", f"WorkflowFailedEvent.attempts={failed_pubs[0][0].attempts} but {step} uid={uid} "
+                                             f"failed {failures} times (statuses {[x[3] for x in execs]})", _replay(tr)))
             continue
         # retry numbers are 0,1,2,... and each retry sees the previous attempt's exception
         rns = [e[0] for e in execs]
@@ -708,44 +751,67 @@ def mon_c08(tr: Trace) -> list[Violation]:
                 out.append(Violation("C08/handler_entered_without_failure", f"handler {rec[1]} entered with a non-failure event", _replay(tr)))
             elif expected_owner(spec, sfe["step"]) != rec[1]:
                 out.append(Violation("C08/wrong_handler_entered", f"handler {rec[1]} entered for a failure of {sfe['step']} owned by {expected_owner(spec, sfe['step'])}", _replay(tr)))
-    # per lineage, counted from the TRACE (not from the counts the state carries).  A lineage is a PATH: an event, the events
-    # returned by the invocation it triggered, and so on (handler outputs included); an event handed to two steps starts two
-    # branches, each with the budget left at that point; ctx.send_event starts a new lineage
+    # an invocation that suspends in wait_for_event comes back (resolution, timeout) with the recovery counts it had:
+    # whatever runs or is queued for the SAME input event afterwards carries the counts recorded at the suspension
+    suspended_rc: dict[int, tuple] = {}
+    dropped = False
+    for c in _runner_calls(tr):
+        if c.after is None or c.error is not None or dropped:
+            continue
+        if isinstance(c.tick, T.TickStepResult) and any(isinstance(r, R.AddWaiter) for r in c.tick.result):
+            ex = next((ip for ip in c.before.workers[c.tick.step_name].in_progress if ip.worker_id == c.tick.worker_id), None)
+            if ex is not None:
+                suspended_rc.setdefault(id(ex.event), (ex.event, c.tick.step_name, dict(ex.recovery_counts)))
+        for name, ws in c.after.workers.items():
+            for a in list(ws.queue) + list(ws.in_progress):
+                hit = suspended_rc.get(id(a.event))
+                if hit is not None and hit[0] is a.event and hit[1] == name and dict(a.recovery_counts) != hit[2]:
+                    out.append(Violation("C08/wait_replay_dropped_counts", f"step {name}: the invocation suspended in wait_for_event with recovery counts {hit[2]} "
+                                         f"is back with {dict(a.recovery_counts)} after {type(c.tick).__name__}", _replay(tr)))
+                    dropped = True
+                    break
+            if dropped:
+                break
+    # per lineage, counted from the TRACE (not from the counts the state carries): the lineage of a failure is the chain of
+    # invocations that produced its input event (each event -> the invocation that returned it -> that invocation's input,
+    # for a handler the input of the failure it handled); ctx.send_event starts a new lineage.  Counted per PATH: an event
+    # accepted by two steps gives two branches, each with its own budget.
     if not spec.get("det_uids"):
-        parent: dict = {}
-        out_of: dict = {}  # uid of an event returned by a handler -> that handler
+        producer: dict = {}
         for rec in tr.steps:
             if rec[0] == "exit" and rec[5].get("ret") and rec[5]["ret"][1] is not None:
-                u = rec[2]
-                parent[rec[5]["ret"][1]] = u[2] if isinstance(u, tuple) else u
-                if isinstance(u, tuple) and rec[1] in maxrec:
-                    out_of[rec[5]["ret"][1]] = rec[1]
+                producer[rec[5]["ret"][1]] = (rec[1], rec[2])
+        # invocations that suspended in wait_for_event (before the repair their replay was a fresh EventAttempt: classifying fact)
+        suspended = {(rec[1], rec[2]) for rec in tr.steps if rec[0] == "exit" and rec[5].get("status") == "raise:WaitingForEvent"}
 
-        def chain(u: Any) -> list:
-            seen, path = set(), []
-            while u is not None and u not in seen:
+        def chain_of(u: Any) -> tuple[list, Any]:
+            ch: list = []
+            seen: set = set()
+            while u in producer and u not in seen:
                 seen.add(u)
-                path.append(u)
-                u = parent.get(u)
-            return path
+                st, inp = producer[u]
+                ch.append((st, inp))
+                u = inp[2] if isinstance(inp, tuple) else inp
+            return ch, u
 
-        waited_uids = {(rec[2][2] if isinstance(rec[2], tuple) else rec[2]) for rec in tr.steps
-                       if rec[0] == "exit" and rec[5].get("status") == "raise:WaitingForEvent"}
         for rec in tr.steps:
             if rec[0] == "enter" and rec[1] in maxrec and isinstance(rec[2], tuple) and rec[3] == 0:
-                h, path = rec[1], chain(rec[2][2])
-                n = 1 + sum(1 for u in path if out_of.get(u) == h)
+                h, fstep, fuid = rec[1], rec[2][1], rec[2][2]
+                ch, r = chain_of(fuid)
+                n = 1 + sum(1 for st, _inp in ch if st == h)
                 if n > maxrec[h]:
-                    sig = "C08/handler_entered_beyond_budget" + (":lineage_suspended_in_wait" if any(u in waited_uids for u in path) else "")
-                    out.append(Violation(sig, f"handler {h} (max_recoveries={maxrec[h]}) was entered {n} times along the lineage {list(reversed(path))}", _replay(tr)))
+                    # ... the failing invocations themselves and those whose failures the handlers on the chain handled
+                    waited = (fstep, fuid) in suspended or any(x in suspended or (isinstance(x[1], tuple) and (x[1][1], x[1][2]) in suspended) for x in ch)
+                    sig = "C08/handler_entered_beyond_budget" + (":lineage_suspended_in_wait" if waited else "")
+                    out.append(Violation(sig, f"handler {h} (max_recoveries={maxrec[h]}) was entered {n} times for the lineage of event {r}", _replay(tr)))
                     return out
     # per lineage: recovery counts never exceed the budget anywhere in the state
     for c in _runner_calls(tr):
         if c.after is None:
             continue
         for name, ws in c.after.workers.items():
-            for a in list(ws.queue) + list(ws.in_progress):
-                for h, n in a.recovery_counts.items():
+            for a in list(ws.queue) + list(ws.in_progress) + list(ws.collected_waiters):
+                for h, n in (getattr(a, "recovery_counts", None) or {}).items():
                     if n > maxrec.get(h, 10 ** 9):
                         out.append(Violation("C08/budget_exceeded", f"an attempt of {name} carries recovery count {n} for {h} (max_recoveries={maxrec.get(h)})", _replay(tr)))
                         return out
